@@ -11,11 +11,13 @@ for id in $ids; do
   if ! git -C /repo diff --quiet; then echo "$id: /repo working tree not clean, abort"; exit 1; fi
   if ! git -C /repo apply --check $PWD/$d/patch.diff 2>/dev/null; then echo "$id: patch does not apply" | tee $d/result.txt; continue; fi
   git -C /repo apply $PWD/$d/patch.diff
+  cp evidence/$prop.json /tmp/evidence_$prop.keep 2>/dev/null   # the committed evidence is the unchanged tree's
   start=$(date +%s)
   out=$(bin/gvc check --property $prop --tier quick 2>&1)
   rc=$?
   end=$(date +%s)
   git -C /repo checkout -- .
+  [ -f /tmp/evidence_$prop.keep ] && mv /tmp/evidence_$prop.keep evidence/$prop.json
   {
     echo "seeded change $id, property $prop: exit $rc, $((end-start)) s"
     echo "$out" | grep -E "^VIOLATION|^KNOWN-FINDING|^property " | sed 's/replay=[^ ]* //' | cut -c1-300
